@@ -340,32 +340,39 @@ def chk_lifecycle(ctx):
 # ------------------------------------------------------------------------------------------------- Grid with data
 def chk_grid_data(ctx):
     R = Result('grid-data')
+    _grid_data(ctx, R, ctx['nmax_data'], '')
+    if ctx.get('nmax_large'): _grid_data(ctx, R, ctx['nmax_large'], '/large')   # long grids: element loops and the binary search beyond 8 points
+    return R
+
+
+def _grid_data(ctx, R, nmax, sfx):
     nat = ctx['native']
-    nmax = ctx['nmax_data']
     F = lambda b: z3.fpBVToFP(b, z3.Float64())
     import struct
     d = lambda x: struct.unpack('<d', struct.pack('<Q', x))[0]
-    # findElement: index of x if present (binary search through real loads of grid data), refusal otherwise
-    W = World(ctx['mod'], nmax, max_visits=nmax + 6); g = W.mk_grid('g'); go = W.mk_grid_obj('gobj', g); x = W.var('x'); W.assume(z3.Not(z3.fpIsNaN(F(x))))
-    def native_find(m):
-        G = nat.grid(m['g_n'], [d(m['g_p%d' % k]) for k in range(m['g_n'])]); o = ctypes.c_size_t(77)
-        nat.lib.n_gfind.argtypes = [ctypes.c_void_p, ctypes.c_double, ctypes.POINTER(ctypes.c_size_t)]
-        rc = nat.lib.n_gfind(G, d(m['x']), ctypes.byref(o))
-        pts = [d(m['g_p%d' % k]) for k in range(m['g_n'])]; exp = [k for k, p in enumerate(pts) if p == d(m['x'])]
-        return (rc == 0) != bool(exp) or (exp and o.value != exp[0]), 'native findElement(%s, %r) -> rc=%d index=%d' % (pts, d(m['x']), rc, o.value)
-    for o in run_paths(ctx, R, W, '@w_gfind', [bv(go.base), x], 'find-element', native_find):
-        present = z3.Or([z3.And(z3.UGT(g['n'], k), z3.fpEQ(F(g['pts'][k]), F(x))) for k in range(nmax)])
-        if o.kind == 'throw': prove(R, W, o.st, z3.And(z3.Not(present), o.val[0] == EC['INCONSISTENT_DATA']), 'find-element/refuses-only-absent-values', native_find)
-        else: prove(R, W, o.st, z3.Or([z3.And(z3.UGT(g['n'], k), o.val == k, z3.fpEQ(F(g['pts'][k]), F(x))) for k in range(nmax)]), 'find-element/returns-the-index-of-x', native_find)
-        no_input_writes(R, o, 'find-element')
+    if not sfx:   # (the binary search over 10 symbolic IEEE points exceeds the query budget; long knot vectors reach findElement through C01)
+        # findElement: index of x if present (binary search through real loads of grid data), refusal otherwise
+        W = World(ctx['mod'], nmax, max_visits=nmax + 6); g = W.mk_grid('g', n=(nmax if sfx else None)); go = W.mk_grid_obj('gobj', g); x = W.var('x')
+        if sfx: W.vars['g_n'] = bv(nmax); W.assume(z3.Not(z3.fpIsNaN(F(x))))
+        def native_find(m):
+            G = nat.grid(m['g_n'], [d(m['g_p%d' % k]) for k in range(m['g_n'])]); o = ctypes.c_size_t(77)
+            nat.lib.n_gfind.argtypes = [ctypes.c_void_p, ctypes.c_double, ctypes.POINTER(ctypes.c_size_t)]
+            rc = nat.lib.n_gfind(G, d(m['x']), ctypes.byref(o))
+            pts = [d(m['g_p%d' % k]) for k in range(m['g_n'])]; exp = [k for k, p in enumerate(pts) if p == d(m['x'])]
+            return (rc == 0) != bool(exp) or (exp and o.value != exp[0]), 'native findElement(%s, %r) -> rc=%d index=%d' % (pts, d(m['x']), rc, o.value)
+        for o in run_paths(ctx, R, W, '@w_gfind', [bv(go.base), x], 'find-element' + sfx, native_find):
+            present = z3.Or([z3.And(z3.UGT(g['n'], k), z3.fpEQ(F(g['pts'][k]), F(x))) for k in range(nmax)])
+            if o.kind == 'throw': prove(R, W, o.st, z3.And(z3.Not(present), o.val[0] == EC['INCONSISTENT_DATA']), 'find-element' + sfx + '/refuses-only-absent-values', native_find)
+            else: prove(R, W, o.st, z3.Or([z3.And(z3.UGT(g['n'], k), o.val == k, z3.fpEQ(F(g['pts'][k]), F(x))) for k in range(nmax)]), 'find-element' + sfx + '/returns-the-index-of-x', native_find)
+            no_input_writes(R, o, 'find-element' + sfx)
     # Grid::operator== on two vectors
-    W = World(ctx['mod'], nmax, max_visits=nmax + 6); g = W.mk_grid('g'); h = W.mk_grid('h'); go = W.mk_grid_obj('gobj', g); ho = W.mk_grid_obj('hobj', h)
-    for o in run_paths(ctx, R, W, '@w_geq', [bv(go.base), bv(ho.base)], 'grid-equality'):
-        if o.kind != 'ret': prove(R, W, o.st, z3.BoolVal(False), 'grid-equality/never-throws'); continue
+    W = World(ctx['mod'], nmax, max_visits=nmax + 6); g = W.mk_grid('g', n=(nmax if sfx else None)); h = W.mk_grid('h', n=(nmax if sfx else None)); go = W.mk_grid_obj('gobj', g); ho = W.mk_grid_obj('hobj', h)
+    if sfx: W.vars['g_n'] = bv(nmax); W.vars['h_n'] = bv(nmax)
+    for o in run_paths(ctx, R, W, '@w_geq', [bv(go.base), bv(ho.base)], 'grid-equality' + sfx):
+        if o.kind != 'ret': prove(R, W, o.st, z3.BoolVal(False), 'grid-equality' + sfx + '/never-throws'); continue
         sg = z3.And(g['n'] == h['n'], *[z3.Implies(z3.UGT(g['n'], k), z3.fpEQ(F(g['pts'][k]), F(h['pts'][k]))) for k in range(nmax)])
-        prove(R, W, o.st, (o.val == 1) == sg, 'grid-equality/iff-same-points')
-        no_input_writes(R, o, 'grid-equality')
-    return R
+        prove(R, W, o.st, (o.val == 1) == sg, 'grid-equality' + sfx + '/iff-same-points')
+        no_input_writes(R, o, 'grid-equality' + sfx)
 
 
 CHECKS = [chk_index_conversions, chk_accessors, chk_algebra, chk_equality, chk_lifecycle, chk_grid_data]
